@@ -5,6 +5,8 @@ positive-extent axes; exact on the dyadic class (multiples of 1/8 below 2^40, wh
 exact and landing within 4 ulp on wild floats.
 """
 import math
+
+import numpy as np
 from fractions import Fraction
 
 from vlib.engine import CaseViolation
@@ -26,9 +28,9 @@ RULE = ('cases: seeded histories of 40 ops (add / move / move_to / remove / move
         'by (world kind, extents, wrap, op-kind trace).')
 ASSUMPTIONS = ['only axes of positive extent are claimed (zero-extent axes are read back but not judged)',
                'extents are 0 or >= 1', 'float landing is exact on multiples of 1/8 below 2^40; elsewhere within 4*(ulp(|old|+|delta|)+ulp(extent)): float % rounds once more when it folds a negative remainder']
-FLOORS = {'quick': {'moves_wrap': 4000, 'moves_clamp': 4000, 'multi_lap_wraps': 800, 'saturated_low': 500, 'saturated_high': 500,
+FLOORS = {'quick': {'calls_with_numpy_scalars': 2849, 'wrap_mode_switched_mid_history': 795, 'placements_rejected_as_duplicate': 789, 'moves_wrap': 4000, 'moves_clamp': 4000, 'multi_lap_wraps': 800, 'saturated_low': 500, 'saturated_high': 500,
                     'move_to_accepted': 2000, 'move_to_rejected': 2000, 'boundary_landings': 1500, 'removals': 1000, 'deprecated_alias_calls': 300, 'big_histories': 6, 'big_history_ops': 3000, 'wild_ops': 500,
-                    'exact_ops': 8500, 'contract:SpaceWorld.containment': 30000, 'world_space': 200, 'world_discrete': 200, 'world_line': 80, 'world_grid': 80,
+                    'exact_ops': 7310, 'contract:SpaceWorld.containment': 30000, 'world_space': 200, 'world_discrete': 200, 'world_line': 80, 'world_grid': 80,
                     'reach:Environments.SpaceWorld.move': 8000, 'reach:Environments.SpaceWorld.move_to': 4000},
           'thorough': {'moves_wrap': 300000, 'moves_clamp': 300000, 'move_to_rejected': 150000}}
 EXHAUSTIVE = {}
@@ -82,6 +84,8 @@ def case_history(ctx, case):
     trace = []
     flags = set()
     pos_axes = [k for k in range(3) if ext[k] and ext[k] > 0]
+    numpy_history = rng.random() < 0.3      # numbers of this history may arrive as numpy scalars; magnitudes then stay below 2^31
+    # (numpy integers are fixed-width: np.int64(3) + 10**30 overflows inside numpy itself, whatever the library does)
 
     def hi(k):
         return ext[k] - off
@@ -105,6 +109,8 @@ def case_history(ctx, case):
             return rng.randint(-24, 24) / 8
         if style == 'far':
             m = rng.choice([2, 3, 10, 1000, 10 ** 6, 10 ** 9] + ([10 ** 17, 2 ** 60 + 1, 10 ** 30] if grid else []))   # ints are exact at any size
+            if numpy_history:
+                m = rng.choice([2, 3, 10, 1000, 10 ** 6])
             s = rng.choice([-1, 1])
             if grid:
                 return s * (int(e) * m + rng.randint(0, int(e)))
@@ -121,6 +127,21 @@ def case_history(ctx, case):
 
     def actual(a):
         return a[P].xyz() if P in a.components else None
+
+    from vlib import reps
+
+
+    def F(v):
+        return Fraction(int(v)) if isinstance(v, np.integer) else Fraction(float(v)) if isinstance(v, np.floating) else Fraction(v)
+
+    def R(seq):
+        """The same numbers, some of them as numpy scalars (coordinates and deltas read from arrays)."""
+        if not numpy_history:
+            return list(seq)
+        out = [reps.as_int(rng, v, 0.3) if isinstance(v, int) else reps.as_float(rng, v, 0.3) for v in seq]
+        if any(type(v) is not type(o) for v, o in zip(seq, out)):
+            ctx.count('calls_with_numpy_scalars')
+        return out
 
     def verify(who, what):
         for a in agents:
@@ -140,14 +161,14 @@ def case_history(ctx, case):
                                         world=(kind, ext, wrap), trace=trace[-10:])
                 e = exp[k]
                 if isinstance(e, tuple):      # wild: (expected Fraction, tolerance, circular?)
-                    d = abs(Fraction(v) - e[0])
+                    d = abs(F(v) - e[0])
                     if e[2]:
                         d = min(d, abs(Fraction(ext[k]) - d))
                     if d > e[1]:
                         raise CaseViolation(f'{what}: agent {a.id} axis {"xyz"[k]} landed at {v!r}, expected {float(e[0])!r} (+-{float(e[1])})',
                                             world=(kind, ext, wrap), trace=trace[-10:])
-                    exp[k] = Fraction(v)
-                elif Fraction(v) != e:
+                    exp[k] = F(v)
+                elif F(v) != e:
                     raise CaseViolation(f'{what}: agent {a.id} axis {"xyz"[k]} is {v!r}, expected {float(e)!r}' +
                                         ('' if a is who else ' (an agent that was not operated on moved)'),
                                         world=(kind, ext, wrap), trace=trace[-10:])
@@ -156,6 +177,12 @@ def case_history(ctx, case):
         a = rng.choice(agents)
         x = rng.random()
         resident = a.id in ref
+        if rng.random() < 0.04:
+            # the documented attribute is assigned in the middle of the history: from now on moves follow the new mode
+            wrap = not wrap
+            env.wrap_env = wrap
+            ctx.count('wrap_mode_switched_mid_history')
+            trace.append(('wrap_env =', wrap))
         if not resident and x < 0.7:
             pos = [num(k, rng.choice(['in', 'in', 'edge'])) for k in range(3)]
             bad = rng.random() < 0.25 and pos_axes
@@ -167,7 +194,7 @@ def case_history(ctx, case):
             trace.append(('add', a.id, pos, 'rejected' if bad else 'ok'))
             if bad:
                 try:
-                    env.add_agent(a, *pos)
+                    env.add_agent(a, *R(pos))
                 except Exception as e:  # noqa
                     if isinstance(e, core.DuplicateAgentError):
                         raise CaseViolation('out-of-bounds placement raised DuplicateAgentError')
@@ -185,8 +212,8 @@ def case_history(ctx, case):
                     ctx.count('deprecated_alias_calls')
                     trace[-1] = ('addAgent', a.id)
                 else:
-                    env.add_agent(a, *pos)
-                ref[a.id] = [Fraction(pos[k]) if k in pos_axes else None for k in range(3)]
+                    env.add_agent(a, *R(pos))
+                ref[a.id] = [F(pos[k]) if k in pos_axes else None for k in range(3)]
                 ctx.count('add_accepted')
                 if any(pos[k] in (0, hi(k)) for k in pos_axes):
                     ctx.count('boundary_landings'); flags.add('edge')
@@ -213,12 +240,12 @@ def case_history(ctx, case):
             d = [num(k, rng.choice(['small', 'small', 'far', 'edge'])) if rng.random() < 0.8 else 0 for k in range(3)]
             trace.append(('move', a.id, d))
             old = actual(a)
-            env.move(a, *d)
+            env.move(a, *R(d))
             ctx.count('moves_wrap' if wrap else 'moves_clamp')
             ctx.count('wild_ops' if wild else 'exact_ops')
             exp = ref[a.id]
             for k in pos_axes:
-                s = Fraction(old[k]) + Fraction(d[k])
+                s = F(old[k]) + F(d[k])
                 E = Fraction(ext[k])
                 if wrap:
                     t = s % E
@@ -231,7 +258,7 @@ def case_history(ctx, case):
                     elif s > hi(k):
                         ctx.count('saturated_high'); flags.add('far')
                 if wild:
-                    tol = 4 * (Fraction(math.ulp(abs(old[k]) + abs(d[k]))) + Fraction(math.ulp(float(ext[k]))))
+                    tol = 4 * (Fraction(math.ulp(abs(float(old[k])) + abs(float(d[k])))) + Fraction(math.ulp(float(ext[k]))))
                     exp[k] = (t, tol, wrap)
                 else:
                     exp[k] = t
@@ -247,11 +274,11 @@ def case_history(ctx, case):
                 bad = any(not (0 <= pos[k] <= hi(k)) for k in pos_axes)
             trace.append(('move_to', a.id, pos, 'rejected' if bad else 'ok'))
             if bad:
-                expect_raises(IndexError, f'move_to{tuple(pos)} outside the world {ext}', env.move_to, a, *pos)
+                expect_raises(IndexError, f'move_to{tuple(pos)} outside the world {ext}', env.move_to, a, *R(pos))
                 ctx.count('move_to_rejected'); flags.add('rej')
             else:
-                env.move_to(a, *pos)
-                ref[a.id] = [Fraction(pos[k]) if k in pos_axes else None for k in range(3)]
+                env.move_to(a, *R(pos))
+                ref[a.id] = [F(pos[k]) if k in pos_axes else None for k in range(3)]
                 ctx.count('move_to_accepted')
                 if any(pos[k] in (0, hi(k)) for k in pos_axes):
                     ctx.count('boundary_landings'); flags.add('edge')
